@@ -7,8 +7,8 @@ theorem invF_kstep (sh : Sh) (ppc : PPc) (kpc : Nat → KPc) (epc : Tid → EPc)
     (hts : kstep sh (kpc n) e = some (sh', pc')) :
     InvF ⟨sh', ppc, upd kpc n pc', epc⟩ := by
   obtain ⟨hbP, hbS, hbR, hbL, hbC, hbK, hl1, hl1c, hl2, hl3, hl3f, hl4, hfxK, hfxC, hfx3, hbT, hl4c, hl5⟩ := hA
-  obtain ⟨hfx, hf1, hf3, hf6k, hf6, hf4, hf5⟩ := h
-  simp only at hbP hbS hbR hbL hbC hbK hl1 hl1c hl2 hl3 hl3f hl4 hfxK hfxC hfx3 hbT hl4c hl5 hfx hf1 hf3 hf6k hf6 hf4 hf5
+  obtain ⟨hfx, hf1, hf3, hf6k, hf6, hf4, hf5, hg1⟩ := h
+  simp only at hbP hbS hbR hbL hbC hbK hl1 hl1c hl2 hl3 hl3f hl4 hfxK hfxC hfx3 hbT hl4c hl5 hfx hf1 hf3 hf6k hf6 hf4 hf5 hg1
   generalize hpc : kpc n = pc at hts
   have h4n := hl4 n
   have hf1n := hf1 n
@@ -17,7 +17,8 @@ theorem invF_kstep (sh : Sh) (ppc : PPc) (kpc : Nat → KPc) (epc : Tid → EPc)
   have hf5n := hf5 n
   have hf6n := hf6k n
   have hTn := hbT n
-  rw [hpc] at h4n hf1n hf3n hf4n hf5n hf6n hTn
+  have hg1n := hg1 n
+  rw [hpc] at h4n hf1n hf3n hf4n hf5n hf6n hTn hg1n
   cases pc with
   | off => simp [kstep] at hts
   | k3 a => have := hfx3 n a hpc; simp [hfx] at this
@@ -47,6 +48,16 @@ theorem invF_kstep (sh : Sh) (ppc : PPc) (kpc : Nat → KPc) (epc : Tid → EPc)
     simp only [kstep, kfin, hfx] at hts
     (repeat' split at hts) <;> (try contradiction) <;> simp only [Option.some.injEq, Prod.mk.injEq] at hts <;>
       obtain ⟨rfl, rfl⟩ := hts <;> constructor <;> simp only [] <;> grind
+  | kd0 a | kd3 a =>
+    simp [kSlot, kFpre, isK0] at h4n hf1n hf3n hf4n hf5n hf6n
+    simp only [kstep] at hts
+    simp only [Option.some.injEq, Prod.mk.injEq] at hts; obtain ⟨rfl, rfl⟩ := hts
+    constructor <;> simp only [] <;> grind
+  | kd1c a | kd3c a =>
+    simp [kSlot, kFpre, isK0] at h4n hf1n hf3n hf4n hf5n hf6n hg1n
+    simp only [kstep] at hts
+    simp only [Option.some.injEq, Prod.mk.injEq] at hts; obtain ⟨rfl, rfl⟩ := hts
+    constructor <;> simp only [] <;> grind
   | kt a =>
     simp [kSlot, kFpre, isK0] at h4n hf1n hf3n hf4n hf5n hf6n hTn
     simp only [kstep, kfin, takeSlot] at hts
